@@ -134,6 +134,33 @@ RotAllowed(e) ==
   /\ \A i \in 1..3, j \in 1..3 : Abs(e.q[i][j] - (IF i = j THEN QS ELSE 0)) <= 2     \* orthonormal rows (1e-4)
   /\ Abs(e.det - QS) <= 2                                                            \* handedness and volume kept
   /\ \A i \in 1..3, j \in 1..3 : Abs(e.inv[i][j] - e.tr[i][j]) <= 3                   \* transpose = inverse
+  \* ... and it is the rotation by THAT angle: e.s, e.c are the sine and cosine of the same Angle value
+  \* (its own sin_cos; which sign goes where is settled by the quarter-turn generators)
+  /\ LET ax == CASE e.axis = "x" -> 1 [] e.axis = "y" -> 2 [] OTHER -> 3
+         j == CHOOSE j \in 1..3 \ {ax} : \A k \in 1..3 \ {ax} : j <= k
+         k == CHOOSE k \in 1..3 \ {ax} : k # j
+     IN /\ Abs(e.m[ax][ax] - QS) <= 2 /\ Abs(e.m[j][j] - e.c) <= 2 /\ Abs(e.m[k][k] - e.c) <= 2
+        /\ Abs(Abs(e.m[j][k]) - Abs(e.s)) <= 2 /\ Abs(e.m[j][k] + e.m[k][j]) <= 2
+
+\* orient_y(A, X) / orient_z(A, X) on lattice vectors (A and X given at independent power-of-two scales,
+\* undone exactly by the recorder): the given axis is kept as it is (e.main, scale 1024); the derived axis
+\* (e.ucol, scale QS) is the UNIT vector along X x A (orient_y: new z) resp. A x X (orient_z: new y); the
+\* third (e.tcol, scale 1024) is new_y x new_z, as long as the given axis; nothing is translated.
+L1(v) == Abs(v[1]) + Abs(v[2]) + Abs(v[3])
+LInf(v) == LET S == {Abs(v[1]), Abs(v[2]), Abs(v[3])} IN CHOOSE x \in S : \A y \in S : x >= y
+Dot3(a, b) == a[1] * b[1] + a[2] * b[2] + a[3] * b[3]
+\* r points along V (r scaled, V integers)
+Along(r, V) == LET c == Cross(r, V) IN LInf(c) <= 3 * L1(V) + (LInf(r) * L1(V)) \div 20000 /\ Dot3(r, V) > 0
+OrientAllowed(e) ==
+  LET A == e.A  X == e.X
+      U == IF e.which = "y" THEN Cross(X, A) ELSE Cross(A, X)
+      T == IF e.which = "y" THEN Cross(A, U) ELSE Cross(U, A)
+      a2 == Dot3(A, A)
+  IN /\ e.panic = 0
+     /\ e.main = <<1024 * A[1], 1024 * A[2], 1024 * A[3]>>
+     /\ Along(e.ucol, U) /\ Abs(Dot3(e.ucol, e.ucol) - QS * QS) <= QS * 8                      \* unit length (2.5e-4)
+     /\ Along(e.tcol, T) /\ Abs(Dot3(e.tcol, e.tcol) - 1048576 * a2) <= (1048576 * a2) \div 2000 + 2048 * LInf(A)
+     /\ e.tl = <<0, 0, 0>> /\ e.last = <<0, 0, 0, 1024>>
 
 Allowed(e) == CoreAllowed(e) /\ VecClass(e, PathMat(e.path), Tol(MaxAbs(PathMat(e.path)) + 4)) = "lin"
 =============================================================================
